@@ -716,7 +716,7 @@ structure Honest (rx : Rx) (n total : Nat) (items : List (Nat × Nat)) : Prop wh
              ∃ so eo, rx.hdr (cstr l1) = some (so, eo) ∧ so ≤ eo ∧ eo ≤ (cstr l1).length ∧ boundaryOf (cstr l1) so eo = boundary n
   compP  : rx.comp (partPattern (boundary n)) = true
   compE  : rx.comp (endPattern (boundary n)) = true
-  parts  : ∀ r ∈ items, r.1 ≤ r.2 → r.2 < W64 → C05.RxFinds rx (partPattern (boundary n)) (partHdr n total r) (r.2 - r.1 + 1)
+  parts  : ∀ r ∈ items, r.1 ≤ r.2 → r.2 + 1 < W64 → C05.RxFinds rx (partPattern (boundary n)) (partHdr n total r) (r.2 - r.1 + 1)
 
 theorem accepted_lengths (fs : List Bytes) : accepted (fs.map List.length) fs = true := by
   unfold accepted
@@ -1486,5 +1486,331 @@ theorem update_converges (H : HashFn) (rx : Rx) (A : Option Bytes) (B : Bytes) (
     let out := afterHeader H rx A B limit frag none o t2 th
     out.err = none ∧ (out.file = B ∨ Collision H th.chunkHashType) :=
   update_complete H rx A B limit frag o t2 th hh ho hA hBlen hBhdr hBok hsc0 hsc1 (marks_of_scan H A t2 th hzero) hon
+
+
+/-! ### a reference implementation of the regex oracle: `Honest` is satisfiable, for every request -/
+
+/-- after the last space of the subject: `<a>-<b>/<total>…` -/
+def refPart (s : Bytes) : Nat × Nat × Nat × Nat :=
+  let k := (s.reverse.takeWhile (· ≠ 32)).length
+  let start := s.length - k
+  let D := s.drop start
+  let a := (D.takeWhile (· ≠ 45)).length
+  let b := ((D.drop (a + 1)).takeWhile (· ≠ 47)).length
+  (start, start + a, start + a + 1, start + a + 1 + b)
+
+/-- a regex oracle that reads the reference server's responses -/
+def refRx : Rx where
+  comp := fun _ => true
+  hdr := fun s => if bMP.isPrefixOf s then some (bMP.length, s.length - 2) else none
+  part := fun _ s => some (refPart s)
+  endm := fun _ _ => true
+
+theorem dec_digits (n : Nat) : ∀ b ∈ dec n, 48 ≤ b.toNat ∧ b.toNat ≤ 57 := by
+  intro b hb
+  unfold dec at hb
+  obtain ⟨c, hc, rfl⟩ := List.mem_map.mp hb
+  have hd := Nat.isDigit_of_mem_toDigits (by decide) (by decide) hc
+  simp only [Char.isDigit, Bool.and_eq_true, decide_eq_true_eq] at hd
+  have h48 : 48 ≤ c.toNat := by
+    have := hd.1
+    simp only [ge_iff_le, UInt32.le_iff_toNat_le] at this
+    exact this
+  have h57 : c.toNat ≤ 57 := by
+    have := hd.2
+    simp only [UInt32.le_iff_toNat_le] at this
+    exact this
+  simp only [Nat.toUInt8, UInt8.toNat_ofNat']
+  omega
+
+theorem dec_ne (n : Nat) (x : UInt8) (hx : x.toNat < 48 ∨ 57 < x.toNat) : ∀ b ∈ dec n, b ≠ x := by
+  intro b hb heq
+  have := dec_digits n b hb
+  rw [heq] at this
+  omega
+
+/-- the decimal digits fold back to the number -/
+theorem parseFold_dec (n : Nat) (acc : Nat) :
+    (dec n).foldl (fun a c => (a * 10 + (c.toNat + W64 - 48)) % W64) (acc % W64) =
+      (Nat.ofDigitChars 10 (Nat.toDigits 10 n) acc) % W64 := by
+  unfold dec
+  have hdig : ∀ c ∈ Nat.toDigits 10 n, c.isDigit := fun c hc => Nat.isDigit_of_mem_toDigits (by decide) (by decide) hc
+  generalize Nat.toDigits 10 n = l at hdig
+  induction l generalizing acc with
+  | nil => simp [Nat.ofDigitChars]
+  | cons c l ih =>
+    simp only [List.map_cons, List.foldl_cons, Nat.ofDigitChars_cons]
+    have hc := hdig c List.mem_cons_self
+    simp only [Char.isDigit, Bool.and_eq_true, decide_eq_true_eq] at hc
+    have h48 : 48 ≤ c.toNat := by
+      have := hc.1
+      simp only [ge_iff_le, UInt32.le_iff_toNat_le] at this
+      exact this
+    have h57 : c.toNat ≤ 57 := by
+      have := hc.2
+      simp only [UInt32.le_iff_toNat_le] at this
+      exact this
+    have hb : c.toNat.toUInt8.toNat = c.toNat := by
+      simp only [Nat.toUInt8, UInt8.toNat_ofNat']; omega
+    rw [hb]
+    have hstep : (acc % W64 * 10 + (c.toNat + W64 - 48)) % W64 = (10 * acc + (c.toNat - '0'.toNat)) % W64 := by
+      have h0 : '0'.toNat = 48 := rfl
+      rw [h0]
+      have e1 : c.toNat + W64 - 48 = (c.toNat - 48) + W64 := by omega
+      rw [e1, ← Nat.add_assoc, Nat.add_mod_right, Nat.add_mod, Nat.mul_mod, Nat.mod_mod, ← Nat.mul_mod, ← Nat.add_mod, Nat.mul_comm]
+    rw [hstep]
+    exact ih _ (fun x hx => hdig x (List.mem_cons_of_mem _ hx))
+
+theorem parseNum_dec (pre post : Bytes) (n : Nat) :
+    parseNum (pre ++ dec n ++ post) pre.length (pre.length + (dec n).length) = n % W64 := by
+  unfold parseNum
+  have h1 : ((pre ++ dec n ++ post).drop pre.length).take (pre.length + (dec n).length - pre.length) = dec n := by
+    rw [List.append_assoc, List.drop_left]
+    have : pre.length + (dec n).length - pre.length = (dec n).length := by omega
+    rw [this, List.take_left]
+  rw [h1]
+  have := parseFold_dec n 0
+  simp only [Nat.zero_mod] at this
+  rw [this, Nat.ofDigitChars_ten_toDigits]
+
+theorem takeWhile_stop {p : UInt8 → Bool} (l1 l2 : Bytes) (x : UInt8) (h1 : ∀ y ∈ l1, p y = true) (hx : p x = false) :
+    (l1 ++ x :: l2).takeWhile p = l1 := by
+  induction l1 with
+  | nil => simp [List.takeWhile, hx]
+  | cons a l ih =>
+    simp only [List.cons_append, List.takeWhile_cons, h1 a List.mem_cons_self, ↓reduceIte]
+    rw [ih (fun y hy => h1 y (List.mem_cons_of_mem _ hy))]
+
+/-- what `refPart` finds in `P ␣ A - B / T` when no later space occurs and the separators are the first of their kind -/
+theorem refPart_spec (P A Bd T : Bytes) (hA32 : ∀ y ∈ A, y ≠ 32) (hB32 : ∀ y ∈ Bd, y ≠ 32) (hT32 : ∀ y ∈ T, y ≠ 32)
+    (hA45 : ∀ y ∈ A, y ≠ 45) (hB47 : ∀ y ∈ Bd, y ≠ 47) :
+    refPart (P ++ 32 :: (A ++ 45 :: (Bd ++ 47 :: T))) =
+      (P.length + 1, P.length + 1 + A.length, P.length + 1 + A.length + 1, P.length + 1 + A.length + 1 + Bd.length) := by
+  let D' : Bytes := A ++ 45 :: (Bd ++ 47 :: T)
+  have hD32 : ∀ y ∈ D', y ≠ 32 := by
+    intro y hy
+    simp only [D', List.mem_append, List.mem_cons] at hy
+    rcases hy with h | h | h | h | h
+    · exact hA32 y h
+    · rw [h]; decide
+    · exact hB32 y h
+    · rw [h]; decide
+    · exact hT32 y h
+  have hrev : (P ++ 32 :: D').reverse = D'.reverse ++ 32 :: P.reverse := by simp
+  have hk : ((P ++ 32 :: D').reverse.takeWhile (· ≠ 32)).length = D'.length := by
+    rw [hrev, takeWhile_stop D'.reverse P.reverse 32 (by intro y hy; simpa using hD32 y (List.mem_reverse.mp hy)) (by simp)]
+    simp
+  have hlen : (P ++ 32 :: D').length - D'.length = P.length + 1 := by simp; omega
+  have hdrop : (P ++ 32 :: D').drop (P.length + 1) = D' := by
+    have : P ++ 32 :: D' = (P ++ [32]) ++ D' := by simp
+    rw [this]
+    have hl : (P ++ [32]).length = P.length + 1 := by simp
+    rw [← hl, List.drop_left]
+  have ha : (D'.takeWhile (· ≠ 45)).length = A.length := by
+    simp only [D']
+    rw [takeWhile_stop A _ 45 (by intro y hy; simpa using hA45 y hy) (by simp)]
+  have hb : ((D'.drop (A.length + 1)).takeWhile (· ≠ 47)).length = Bd.length := by
+    have hd : D'.drop (A.length + 1) = Bd ++ 47 :: T := by
+      simp only [D']
+      have : A ++ 45 :: (Bd ++ 47 :: T) = (A ++ [45]) ++ (Bd ++ 47 :: T) := by simp
+      rw [this]
+      have hl : (A ++ [45]).length = A.length + 1 := by simp
+      rw [← hl, List.drop_left]
+    rw [hd, takeWhile_stop Bd _ 47 (by intro y hy; simpa using hB47 y hy) (by simp)]
+  show refPart (P ++ 32 :: D') = _
+  unfold refPart
+  simp only [hk, hlen, hdrop, ha, hb]
+
+def bCR0 : Bytes := bCR.dropLast
+
+theorem bCR_split : bCR = bCR0 ++ [32] := by decide
+
+theorem boundary_no0 (n : Nat) : ∀ b ∈ boundary n, b ≠ 0 :=
+  fun b hb => by
+    have hbase : ∀ z ∈ bBase, z ≠ 0 := by decide
+    rcases List.mem_append.mp hb with h | h
+    · exact hbase b h
+    · exact dec_ne n 0 (by decide) b h
+
+theorem w64_val : W64 = 18446744073709551616 := by decide
+
+/-- the reference oracle finds the range in every part header of the reference server -/
+theorem refRx_finds (pp : Bytes) (n total : Nat) (r : Nat × Nat) (h1 : r.1 ≤ r.2) (h2 : r.2 + 1 < W64) :
+    C05.RxFinds refRx pp (partHdr n total r) (r.2 - r.1 + 1) := by
+  let P : Bytes := bDelim ++ boundary n ++ [13, 10] ++ bCT ++ [13, 10] ++ bCR0
+  let T : Bytes := dec total ++ [13, 10, 13]
+  have hS : partHdr n total r ++ [13, 10, 13] = P ++ 32 :: (dec r.1 ++ 45 :: (dec r.2 ++ 47 :: T)) := by
+    simp only [partHdr, P, T, bCR_split, List.append_assoc, List.cons_append, List.nil_append]
+  -- the C string handed to regexec
+  have hno0 : ∀ y ∈ partHdr n total r ++ [13, 10, 13], (y ≠ 0) := by
+    intro y hy
+    rw [hS] at hy
+    simp only [P, T, List.mem_append, List.mem_cons] at hy
+    have hlit : ∀ (l : Bytes), (∀ z ∈ l, z ≠ 0) → y ∈ l → y ≠ 0 := fun l hl hm => hl y hm
+    rcases hy with ((((((h | h) | h) | h) | h) | h) | h)
+    · exact hlit bDelim (by decide) h
+    · exact boundary_no0 n y h
+    · rcases h with h | h | h
+      · rw [h]; decide
+      · rw [h]; decide
+      · simp at h
+    · exact hlit bCT (by decide) h
+    · rcases h with h | h | h
+      · rw [h]; decide
+      · rw [h]; decide
+      · simp at h
+    · exact hlit bCR0 (by decide) h
+    · rcases h with h | h | h | h | h | h
+      · rw [h]; decide
+      · exact dec_ne _ 0 (by decide) y h
+      · rw [h]; decide
+      · exact dec_ne _ 0 (by decide) y h
+      · rw [h]; decide
+      · rcases h with h | h
+        · exact dec_ne _ 0 (by decide) y h
+        · exact hlit [13, 10, 13] (by decide) (by simpa using h)
+  have hcstr : cstr (partHdr n total r ++ [13, 10, 13, 0]) = partHdr n total r ++ [13, 10, 13] := by
+    unfold cstr
+    have : partHdr n total r ++ [13, 10, 13, 0] = (partHdr n total r ++ [13, 10, 13]) ++ 0 :: [] := by simp
+    rw [this, takeWhile_stop _ [] 0 (by intro y hy; simpa using hno0 y hy) (by simp)]
+  have hspec := refPart_spec P (dec r.1) (dec r.2) T (dec_ne _ 32 (by decide)) (dec_ne _ 32 (by decide))
+    (by intro y hy
+        simp only [T, List.mem_append] at hy
+        rcases hy with h | h
+        · exact dec_ne _ 32 (by decide) y h
+        · revert y; decide)
+    (dec_ne _ 45 (by decide)) (dec_ne _ 47 (by decide))
+  unfold C05.RxFinds
+  rw [hcstr, hS]
+  refine ⟨P.length + 1, P.length + 1 + (dec r.1).length, P.length + 1 + (dec r.1).length + 1,
+    P.length + 1 + (dec r.1).length + 1 + (dec r.2).length, ?_, by omega, ?_, by omega, ?_, ?_⟩
+  · show some (refPart _) = _
+    rw [hspec]
+  · simp only [List.length_append, List.length_cons]; omega
+  · simp only [List.length_append, List.length_cons]; omega
+  · -- the two numbers
+    have e1 : P ++ 32 :: (dec r.1 ++ 45 :: (dec r.2 ++ 47 :: T)) = (P ++ [32]) ++ dec r.1 ++ (45 :: (dec r.2 ++ 47 :: T)) := by simp
+    have e2 : P ++ 32 :: (dec r.1 ++ 45 :: (dec r.2 ++ 47 :: T)) = (P ++ [32] ++ dec r.1 ++ [45]) ++ dec r.2 ++ (47 :: T) := by simp
+    have l1 : (P ++ [32]).length = P.length + 1 := by simp
+    have l2 : (P ++ [32] ++ dec r.1 ++ [45]).length = P.length + 1 + (dec r.1).length + 1 := by simp; omega
+    have p1 : parseNum (P ++ 32 :: (dec r.1 ++ 45 :: (dec r.2 ++ 47 :: T))) (P.length + 1) (P.length + 1 + (dec r.1).length) = r.1 % W64 := by
+      rw [e1, ← l1]; exact parseNum_dec _ _ _
+    have p2 : parseNum (P ++ 32 :: (dec r.1 ++ 45 :: (dec r.2 ++ 47 :: T))) (P.length + 1 + (dec r.1).length + 1)
+        (P.length + 1 + (dec r.1).length + 1 + (dec r.2).length) = r.2 % W64 := by
+      rw [e2, ← l2]; exact parseNum_dec _ _ _
+    have m1 : r.1 % W64 = r.1 := Nat.mod_eq_of_lt (by omega)
+    have m2 : r.2 % W64 = r.2 := Nat.mod_eq_of_lt (by omega)
+    rw [p1, p2, m1, m2]
+    have e3 : r.2 + W64 - r.1 + 1 = (r.2 - r.1 + 1) + W64 := by omega
+    rw [e3, Nat.add_mod_right]
+    exact Nat.mod_eq_of_lt (by omega)
+
+theorem cstr_append_no0 (a b : Bytes) (ha : ∀ y ∈ a, y ≠ 0) : cstr (a ++ b) = a ++ cstr b := by
+  unfold cstr
+  induction a with
+  | nil => rfl
+  | cons x a ih =>
+    simp only [List.cons_append, List.takeWhile_cons]
+    have hx : x ≠ 0 := ha x List.mem_cons_self
+    simp only [ne_eq, hx, not_false_eq_true, decide_true, ↓reduceIte]
+    rw [ih (fun y hy => ha y (List.mem_cons_of_mem _ hy))]
+
+theorem hdr_status : refRx.hdr (cstr bStatus) = none := by decide
+theorem hdr_ctline : refRx.hdr (cstr bCTline) = none := by decide
+theorem hdr_crlf : refRx.hdr (cstr [13, 10]) = none := by decide
+
+theorem hdr_range_line (X : Bytes) : refRx.hdr (cstr (bCR ++ X)) = none := by
+  rw [cstr_append_no0 bCR X (by decide)]
+  have : bMP.isPrefixOf (bCR ++ cstr X) = false := by
+    simp [bMP, bCR, List.isPrefixOf]
+  simp only [refRx, this]
+  rfl
+
+theorem hdr_length_line (X : Bytes) : refRx.hdr (cstr (bCL ++ X)) = none := by
+  rw [cstr_append_no0 bCL X (by decide)]
+  have : bMP.isPrefixOf (bCL ++ cstr X) = false := by
+    simp [bMP, bCL, List.isPrefixOf]
+  simp only [refRx, this]
+  rfl
+
+/-- the Content-Type line of a multipart response: the boundary is found -/
+theorem hdr_boundary_line (n : Nat) :
+    ∃ so eo, refRx.hdr (cstr (bMP ++ boundary n ++ [13, 10])) = some (so, eo) ∧ so ≤ eo ∧
+      eo ≤ (cstr (bMP ++ boundary n ++ [13, 10])).length ∧ boundaryOf (cstr (bMP ++ boundary n ++ [13, 10])) so eo = boundary n := by
+  have hno0 : ∀ y ∈ bMP ++ boundary n ++ [13, 10], y ≠ 0 := by
+    intro y hy
+    have hmp : ∀ z ∈ bMP, z ≠ 0 := by decide
+    rcases List.mem_append.mp hy with h | h
+    · rcases List.mem_append.mp h with h' | h'
+      · exact hmp y h'
+      · exact boundary_no0 n y h'
+    · have : ∀ z ∈ ([13, 10] : Bytes), z ≠ 0 := by decide
+      exact this y h
+  have hc : cstr (bMP ++ boundary n ++ [13, 10]) = bMP ++ boundary n ++ [13, 10] := by
+    have := cstr_append_no0 (bMP ++ boundary n ++ [13, 10]) [] hno0
+    simpa [cstr] using this
+  rw [hc]
+  have hpre : bMP.isPrefixOf (bMP ++ boundary n ++ [13, 10]) = true := by
+    rw [List.isPrefixOf_iff_prefix, List.append_assoc]
+    exact List.prefix_append _ _
+  have hbl : 0 < (boundary n).length := by simp [boundary, bBase]
+  refine ⟨bMP.length, (bMP ++ boundary n ++ [13, 10]).length - 2, ?_, ?_, ?_, ?_⟩
+  · simp only [refRx, hpre, ↓reduceIte]
+  · simp only [List.length_append, List.length_cons, List.length_nil]; omega
+  · omega
+  · unfold boundaryOf
+    have hlen : (bMP ++ boundary n ++ [13, 10]).length - 2 - bMP.length = (boundary n).length := by
+      simp only [List.length_append, List.length_cons, List.length_nil]; omega
+    have hfirst : (bMP ++ boundary n ++ [13, 10]).getD bMP.length 0 = 51 := by
+      rw [List.append_assoc, List.getD_eq_getElem?_getD, List.getElem?_append_right (Nat.le_refl _)]
+      simp [boundary, bBase]
+    simp only [hlen, hfirst]
+    rw [if_neg (by intro h; exact absurd h.1 (by decide))]
+    rw [List.append_assoc, List.drop_left, List.take_left]
+
+/-- **`Honest` is satisfiable — by one oracle, for every transfer number, file length and request** -/
+theorem refRx_honest (n total : Nat) (items : List (Nat × Nat)) : Honest refRx n total items where
+  comp := rfl
+  single := by
+    intro r _ l hl
+    simp only [singleLines, List.mem_cons, List.mem_nil_iff, or_false] at hl
+    rcases hl with rfl | rfl | rfl | rfl
+    · exact hdr_status
+    · exact hdr_ctline
+    · simp only [List.append_assoc]; exact hdr_range_line _
+    · exact hdr_crlf
+  multi := by
+    intro _ len l0 l1 l2 l3 hl
+    simp only [mpLines, List.cons.injEq, and_true] at hl
+    obtain ⟨rfl, rfl, rfl, rfl⟩ := hl
+    refine ⟨?_, hdr_boundary_line n⟩
+    intro l hl
+    simp only [List.mem_cons, List.mem_nil_iff, or_false] at hl
+    rcases hl with rfl | rfl | rfl
+    · exact hdr_status
+    · simp only [List.append_assoc]; exact hdr_length_line _
+    · exact hdr_crlf
+  compP := rfl
+  compE := rfl
+  parts := fun r _ h1 h2 => refRx_finds _ n total r h1 h2
+
+/-- **C04 with the reference oracle (no hypothesis about regular expressions left)**: with `refRx` in the place of glibc's
+regex functions the procedure ends WITHOUT error and leaves the target BYTE-IDENTICAL to the server's file `B` (or a collision
+is exhibited) — for ANY target bytes behind the header, old file, limit and fragment size.  The hypotheses are about the files
+only: the header of `B` is in place and parses, the old file has the same chunk checksum type, `B` has the prescribed length
+and every chunk of the index present, the scan left something to do and marked the chunks without stored bytes valid. -/
+theorem update_converges_ref (H : HashFn) (A : Option Bytes) (B : Bytes) (limit : Int) (frag : Nat) (o : Out)
+    (t2 : Bytes) (th : Hdr) (hh : HdrOk H t2 th) (ho : o.err = none)
+    (hA : ∀ a ah, A = some a → Header.openFile H a = .ok ah → ah.chunkHashType = th.chunkHashType)
+    (hBlen : B.length = th.lead + th.headerLen + th.dataLen)
+    (hBhdr : ∀ i, i < th.lead + th.headerLen → B.getD i 0 = t2.getD i 0)
+    (hBok : AllPresent (envOf H refRx th []) B)
+    (hsc0 : (Reader.validateChecksums H t2 (Reader.openCtx th)).1 ≠ 0)
+    (hsc1 : (Reader.validateChecksums H t2 (Reader.openCtx th)).1 ≠ 1)
+    (hzero : ∀ k c, th.chunks[k]? = some c → c.compLen = 0 → (validateChecksums H t2 (openCtx th)).2.valid.getD k 0 = 1) :
+    let out := afterHeader H refRx A B limit frag none o t2 th
+    out.err = none ∧ (out.file = B ∨ Collision H th.chunkHashType) :=
+  update_converges H refRx A B limit frag o t2 th hh ho hA hBlen hBhdr hBok hsc0 hsc1 hzero
+    (fun n valid' _ => refRx_honest (n + 1) B.length _)
 
 end Zck.C04
